@@ -231,6 +231,30 @@ def main(args):
                     results.append(("benign:" + vname, "ok", f"{what}: {', '.join(pids)} stay silent"))
             finally:
                 shutil.rmtree(repo, ignore_errors=True)
+    if not want or "benign" in want or "corpus" in want:
+        # behaviour-preserving refactorings written by independent agents (benign/<id>/patch.diff): every check must stay silent
+        bdir = os.path.join(VERIF, "benign")
+        allp = ["C01", "C02", "C03", "C04", "C05", "C07", "C08", "C09", "C10", "C11", "C12", "C13", "C14", "C15", "C16", "C17", "C18"]
+        for name in sorted(os.listdir(bdir)) if os.path.isdir(bdir) else []:
+            repo = make_copy()
+            try:
+                ok, out = git_apply(repo, os.path.join(bdir, name, "patch.diff"))
+                if not ok:
+                    results.append(("corpus:" + name, "skip", "patch no longer applies to the current tree"))
+                    continue
+                meta = json.load(open(os.path.join(bdir, name, "meta.json")))
+                bad = []
+                for pid in allp:
+                    rc, out = run_check(pid, repo)
+                    if rc != 0:
+                        bad.append(pid + ": " + "; ".join(l.strip()[:90] for l in out.splitlines() if l.strip().startswith("FAIL"))[:250])
+                if bad:
+                    results.append(("corpus:" + name, "FAIL", f"{meta.get('style', '')[:60]} in {meta.get('function', '')[:40]}: alarm(s) {bad}"))
+                    ok_all = False
+                else:
+                    results.append(("corpus:" + name, "ok", f"{meta.get('style', '')[:70]} ({meta.get('function', '')[:40]}): all 17 checks silent"))
+            finally:
+                shutil.rmtree(repo, ignore_errors=True)
     for r in results:
         print(f"  [{r[1]:4}] {r[0]}: {r[2]}")
     n_ok = sum(1 for r in results if r[1] == "ok")
